@@ -201,6 +201,16 @@ def run(ctx):
             cfgs = c04.gen_random_cfgs(ctx, nsc)
             for cfg in cfgs:
                 cfg["mb"] = min(cfg["mb"], 3)
+            if ctx.rng.random() < 0.6:
+                # a pyramid: every scale has the SAME sharding parameters and chunk size,
+                # only the volume (grid) differs
+                base = dict(cfgs[0])
+                if base["pb"] > 8:
+                    base.update(pb=0, mb=1, sb=1)
+                g0 = [ctx.rng.choice([2, 3, 4, 8]), ctx.rng.choice([2, 4]), ctx.rng.choice([1, 2])]
+                cfgs = [dict(base, grid=[max(1, -(-g // (2 ** k))) for g in g0]) for k in range(nsc)]
+                if ctx.rng.random() < 0.5:
+                    cfgs.reverse()          # coarse scale first
             stored_lists = []
             for cfg in cfgs:
                 allp = sd.all_pos(cfg["grid"])
